@@ -33,7 +33,95 @@ def _c38_classes(i, o):
     return cls
 
 
+def _c37_classes(i, o):
+    mode, world, owner, asset, base, target, mx, partial, excl = i
+    cls = ['mode=%s' % {0: 'indexed', 1: 'largest_first', 2: 'random_improve'}.get(mode, '?')]
+    cls.append('world=%d' % min(len(world), 12))
+    cls.append('max=%s' % ('0' if mx == 0 else 'small' if mx < 10 else 'large'))
+    cls.append('partial=%d' % partial)
+    cls.append('excl=%d' % min(len(excl), 4))
+    adm = [r[4] for r in world if r[2] == owner and ((r[1] == 0 and r[3] == asset) or (r[1] != 0 and asset == base and not r[5]))
+           and r[0] not in excl]
+    tot = sum(adm)
+    cls.append('target=%s' % ('zero' if target == 0 else 'lt_total' if target < tot else 'eq_total' if target == tot else 'gt_total'))
+    if any(r[1] != 0 for r in world):
+        cls.append('has_messages')
+    if len(set(adm)) < len(adm):
+        cls.append('equal_amounts')
+    if isinstance(o, list) and len(o) == 2 and isinstance(o[1], list) and o[1]:
+        if o[1][0] == 0:
+            cls.append('answer=ok%d' % min(len(o[1][1]), 8))
+        else:
+            cls.append('answer=err%d' % o[1][1])
+    return cls
+
+
+def _c36_classes(i, o):
+    bal_on, cts_on, base, evs = i
+    cls = ['events=%d' % min(len(evs), 25), 'flags=%d%d' % (bal_on, cts_on)]
+    for e in evs:
+        cls.append('ev=%s_%s' % ('create' if e[0] == 0 else 'consume', 'coin' if e[1][1] == 0 else ('retryable_msg' if e[1][5] else 'msg')))
+    # consistency of the history (same definition as the model's consistentb)
+    unspent = []
+    ok = True
+    for e in evs:
+        r = e[1]
+        if e[0] == 0:
+            if any(x[0] == r[0] and (x[1] == 0) == (r[1] == 0) for x in unspent):
+                ok = False
+                break
+            unspent.append(r)
+        else:
+            if r in unspent:
+                unspent.remove(r)
+            else:
+                ok = False
+                break
+    cls.append('history=%s' % ('consistent' if ok else 'inconsistent'))
+    return cls
+
+
 PROPS = {
+    'C36': dict(
+        id='C36', cluster='Gql', crate='h-gql', tag=36,
+        n={'quick': 1500, 'thorough': 30000},
+        theorems=['index_eq_utxo', 'index_step', 'trace_code_complete', 'inv_code_sound'],
+        classify=_c36_classes,
+        rule='random event histories of 1..14 (thorough 24) events (CoinCreated / CoinConsumed / MessageImported / MessageConsumed; two '
+             'owners, two assets, retryable and non-retryable messages, amounts 0, small, u64::MAX) fed one event at a time through the real '
+             'process_executor_events on an in-memory Database<OffChain>; after every event all six tables (CoinBalances, MessageBalances, '
+             'CoinsToSpendIndex, OwnedCoins, OwnedMessageIds, SpentMessages) are dumped and compared with the model. Three quarters of the '
+             'histories are consistent (Pcheck: tables = unspent set after every event), one quarter corrupted (double create, consume of a '
+             'spent / unknown resource, consume with a different amount / owner / asset / retryable flag: model equality incl. the skipped '
+             'coins-to-spend update after a balance error). One case in four runs with one or both indexations disabled. '
+             'non-trivial = distinct input with a non-empty observation',
+        assumptions=['consistent history = what the executor emits (C02): creations fresh, consumptions of unspent resources with exact data',
+                     'the sum of all created amounts stays below 2^128 (saturating_add never saturates)',
+                     'IndexationError values are only logged by the worker; the tie observes their effect on the tables, not the variant',
+                     'theorem stated for both indexations enabled; disabled-flag runs are checked for model equality only'],
+    ),
+    'C37': dict(
+        id='C37', cluster='Gql', crate='h-gql', tag=37,
+        n={'quick': 2500, 'thorough': 40000},
+        theorems=['indexed_answer_sound_partial', 'indexed_answer_sound_refuted', 'indexed_error_only_if_infeasible',
+                  'largest_first_answer_sound', 'random_improve_answer_sound', 'nonindexed_error_only_if_infeasible',
+                  'topk_dominates', 'sel_code_sound'],
+        classify=_c37_classes,
+        rule='real in-memory on-chain/off-chain databases filled from the generated set of unspent resources (off-chain tables through '
+             'the real process_executor_events); the real select_coins_to_spend over the real coins_to_spend_index iterators, and '
+             'largest_first / random_improve through a real ReadView. Bounded-exhaustive: every amount tuple over {1,2,5} of length <= 3 '
+             '(thorough 4) x target 0..9 (14) x max 0..3 (4) x allow_partial x the three algorithms; random: coins and messages '
+             '(retryable or not) of two owners and two assets, equal amounts, zero / u64::MAX amounts, exclusion lists (incl. unknown ids), '
+             'targets at total-1/total/total+1, u64::MAX, 2^64+5, u128::MAX, max 0/small/255/65535. The observation carries the stream the '
+             'algorithm reads (checked against the model) and the answer; the random draw is not controllable, so the model answer is the '
+             'one of an admissible oracle value reproducing the observed answer (all dust counts; the shuffles consistent with it), and '
+             'Pcheck (soundness / error only if infeasible) is evaluated on the implementation answer. '
+             'non-trivial = distinct input with a non-empty observation',
+        assumptions=['resource ids are unique over coins and messages (utxo id = tx id with the rid in the last bytes, output 0; nonce likewise)',
+                     'the order-independence of the top-k sum (Pcheck ranks the admissible set in world order, the theorems in the order the '
+                     'algorithm reads) is not proved; it is exercised by the tie',
+                     'sums of amounts stay below 2^128 (fewer than 2^64 resources)'],
+    ),
     'C38': dict(
         id='C38', cluster='Gql', crate='h-gql', tag=38,
         n={'quick': 3000, 'thorough': 60000},
